@@ -54,6 +54,8 @@ var c14Methods = []c14Meth{
 	{"dyn_b", "dynamic", true, "bothc"},
 }
 
+const c14DefaultCap = 1024 // = C14.default_cap: a size no history reaches
+
 const c14NoSuch = "nosuch" // a route no method is registered under (index >= len)
 
 func c14Name(i int) string {
@@ -121,6 +123,7 @@ type c14Op struct {
 	Cancel bool   `json:"cancel,omitempty"`
 	Body   string `json:"body,omitempty"` // tick | data
 	RFail  bool   `json:"rfail,omitempty"`
+	Cap    int    `json:"cap,omitempty"` // on: SetCallStateCacheEntries(cap); 0 = the default size
 }
 
 type c14In struct {
@@ -140,7 +143,7 @@ type c14Res struct {
 type c14Env struct {
 	sf    *Surface
 	hs    [2]*vgirpc.HttpServer
-	on    [2]bool
+	cap   [2]int // call-state cache capacity per instance, 0 = disabled
 	toks  []string
 	rfail bool
 }
@@ -210,8 +213,9 @@ func newC14Env() *c14Env {
 			}
 			return nil
 		})
+		h.SetCallStateCacheEntries(c14DefaultCap)
 		e.hs[i] = h
-		e.on[i] = true
+		e.cap[i] = c14DefaultCap
 	}
 	return e
 }
@@ -365,18 +369,16 @@ func (e *c14Env) step(op c14Op) c14Res {
 			res.Tok = true
 		}
 		return res // the init's own user code is not part of the continuation trace
-	case "reset":
-		if e.on[inst] {
-			h.SetCallStateCacheEntries(1024)
-		}
+	case "reset": // the process restarts: same capacity, no entries
+		h.SetCallStateCacheEntries(e.cap[inst])
 		return c14Res{}
 	case "off":
 		h.SetCallStateCacheEntries(0)
-		e.on[inst] = false
+		e.cap[inst] = 0
 		return c14Res{}
 	case "on":
-		h.SetCallStateCacheEntries(1024)
-		e.on[inst] = true
+		e.cap[inst] = op.capOrDefault()
+		h.SetCallStateCacheEntries(e.cap[inst])
 		return c14Res{}
 	case "cont":
 		var meta [][2]string
@@ -409,6 +411,13 @@ func (e *c14Env) step(op c14Op) c14Res {
 	panic("c14: bad op " + op.Op)
 }
 
+func (op c14Op) capOrDefault() int {
+	if op.Cap > 0 {
+		return op.Cap
+	}
+	return c14DefaultCap
+}
+
 func (r c14Ref) coq() string {
 	if r.K != "tok" {
 		return "C14.TNone"
@@ -426,7 +435,7 @@ func (op c14Op) coq() string {
 	case "off":
 		return App("C14.OOff", i)
 	case "on":
-		return App("C14.OOn", i)
+		return App("C14.OOn", i, Nat(op.capOrDefault()))
 	}
 	b := "C14.Tick"
 	if op.Body == "data" {
@@ -458,6 +467,10 @@ func c14Run(in c14In) CaseOut {
 				pv = append(pv, prov{"cursor", op.M}, prov{"call", op.M})
 			}
 			tags["init:"+c14Name(op.M)] = true
+		case "on":
+			if op.Cap > 0 && op.Cap < c14DefaultCap {
+				tags[fmt.Sprintf("cap=%d", op.Cap)] = true
+			}
 		case "cont":
 			cls := "cur=none"
 			if op.Cur.K == "tok" && op.Cur.ID < len(pv) {
@@ -486,8 +499,10 @@ func c14Run(in c14In) CaseOut {
 			if op.Call.K != "tok" {
 				t += ":nocall"
 			}
-			if !e.on[op.Inst&1] {
+			if c := e.cap[op.Inst&1]; c == 0 {
 				t += ":cache-off"
+			} else if c < c14DefaultCap {
+				t += ":small-cap"
 			}
 			if len(r.Trace) > 0 {
 				t += ":ran"
@@ -580,10 +595,87 @@ func c14Pair(m, m2, level int) c14In {
 	return c14In{Note: fmt.Sprintf("pair %s->%s L%d", c14Name(m), c14Name(m2), level), Ops: ops}
 }
 
+// c14Evict: the call-state cache of instance 0 holds at most cap entries. Call A (method
+// a) is initialised, then enough calls of method b to push A's entry out (variant 0), or
+// A's entry is kept alive by cache hits while b's calls evict each other (variant 1).
+// A's cursor is then presented at b's route and at its own, with and without A's call
+// token. Accepted continuations before the end use the cancel flag (a cancel resolves the
+// call - hit, touch or miss + store - but returns no cursor, so token indices stay put).
+func c14Evict(a, b, cap, variant int) c14In {
+	ba, bb := c14body(a), c14body(b)
+	ops := []c14Op{
+		{Op: "on", Inst: 0, Cap: cap},
+		{Op: "init", Inst: 0, M: a}, // toks 0, 1
+	}
+	nb := 0 // calls of b: cursor 2+2j, call token 3+2j
+	initB := func() {
+		ops = append(ops, c14Op{Op: "init", Inst: 0, M: b})
+		nb++
+	}
+	if variant == 0 {
+		for j := 0; j < cap; j++ {
+			initB() // the last one evicts A
+		}
+		ops = append(ops,
+			c14cont(0, b, c14tok(0), c14none(), false, bb), // A evicted: miss, no call token
+			c14cont(0, b, c14tok(0), c14none(), true, bb),
+			c14cont(0, a, c14tok(0), c14none(), true, ba),  // own route: also a miss now
+			c14cont(0, b, c14tok(0), c14tok(1), false, bb), // miss path opens A's call token, stores A (evicts the oldest b)
+			c14cont(0, b, c14tok(0), c14none(), false, bb), // A cached again: hit, names a
+			c14cont(0, b, c14tok(2), c14none(), true, bb),  // the first b call was the victim (cap 1: of the store above)
+			c14cont(0, b, c14tok(2), c14tok(3), true, bb),  // with its call token: own, stored again
+			c14cont(0, b, c14tok(0), c14tok(3), false, bb), // A's cursor + b's call token
+			c14cont(0, a, c14tok(0), c14tok(1), false, ba), // own: one turn
+		)
+	} else {
+		for j := 0; j+1 < cap; j++ {
+			initB() // cache full, A is the least recently used
+		}
+		ops = append(ops, c14cont(0, a, c14tok(0), c14none(), true, ba)) // hit: A moves to the front
+		initB()                                                          // evicts the oldest b (cap 1: A)
+		ops = append(ops,
+			c14cont(0, b, c14tok(0), c14none(), false, bb), // cap > 1: hit, names a; cap 1: miss
+			c14cont(0, a, c14tok(0), c14none(), true, ba),  // cap > 1: hit
+			c14cont(0, b, c14tok(2), c14none(), true, bb),  // cap > 1: the first b call is gone
+		)
+		initB()
+		initB()
+		ops = append(ops,
+			c14cont(0, b, c14tok(0), c14none(), false, bb), // cap 3: A survives thanks to the hits; cap <= 2: evicted
+			c14cont(0, b, c14tok(0), c14tok(1), true, bb),
+			c14cont(0, b, c14tok(0), c14tok(1+2*nb), false, bb), // A's cursor + the newest b call token
+			c14cont(0, a, c14tok(0), c14none(), false, ba),
+			c14cont(1, b, c14tok(0), c14tok(1), false, bb), // the other process (default size) never saw A
+		)
+	}
+	return c14In{Note: fmt.Sprintf("evict %s->%s cap=%d v%d", c14Name(a), c14Name(b), cap, variant), Ops: ops}
+}
+
+// c14EvictMin: the shortest eviction history - /a/init, cap x /b/init on a cache of cap
+// entries, then A's cursor with A's call token (and without) at b's route.
+func c14EvictMin(a, b, cap int) c14In {
+	ops := []c14Op{{Op: "on", Inst: 0, Cap: cap}, {Op: "init", Inst: 0, M: a}}
+	for j := 0; j < cap; j++ {
+		ops = append(ops, c14Op{Op: "init", Inst: 0, M: b})
+	}
+	ops = append(ops,
+		c14cont(0, b, c14tok(0), c14tok(1), false, c14body(b)),
+		c14cont(0, b, c14tok(0), c14none(), false, c14body(b)))
+	return c14In{Note: fmt.Sprintf("evict-min %s->%s cap=%d", c14Name(a), c14Name(b), cap), Ops: ops}
+}
+
 func c14Random(r *rand.Rand) c14In {
 	var ops []c14Op
 	ntok := 0
 	ninit := 1 + r.Intn(3)
+	small := r.Intn(3) == 0 // a third of the histories run with tiny caches: evictions
+	if small {
+		ops = append(ops, c14Op{Op: "on", Inst: 0, Cap: 1 + r.Intn(3)})
+		if r.Intn(2) == 0 {
+			ops = append(ops, c14Op{Op: "on", Inst: 1, Cap: 1 + r.Intn(3)})
+		}
+		ninit += 2
+	}
 	for i := 0; i < ninit; i++ {
 		ops = append(ops, c14Op{Op: "init", Inst: r.Intn(2), M: r.Intn(len(c14Methods))})
 		ntok += 2
@@ -592,8 +684,12 @@ func c14Random(r *rand.Rand) c14In {
 	for i := 0; i < n; i++ {
 		switch k := r.Intn(12); {
 		case k == 0:
-			ops = append(ops, c14Op{Op: []string{"reset", "off", "on"}[r.Intn(3)], Inst: r.Intn(2)})
-		case k == 1 && ntok < 10:
+			o := c14Op{Op: []string{"reset", "off", "on"}[r.Intn(3)], Inst: r.Intn(2)}
+			if o.Op == "on" && small {
+				o.Cap = 1 + r.Intn(3)
+			}
+			ops = append(ops, o)
+		case (k == 1 || small && k <= 3) && ntok < 14:
 			ops = append(ops, c14Op{Op: "init", Inst: r.Intn(2), M: r.Intn(len(c14Methods))})
 			ntok += 2
 		default:
@@ -638,6 +734,22 @@ func c14Gen(r *rand.Rand, n int, tier string) []c14In {
 	if tier != "thorough" { // a diagonal of long histories in the quick tier
 		for m := range c14Methods {
 			out = append(out, c14Pair(m, (m+3)%len(c14Methods), 1))
+		}
+	}
+	// small capacities: eviction boundaries
+	if tier == "thorough" {
+		for a := range c14Methods {
+			for b := range c14Methods {
+				if a != b {
+					out = append(out, c14EvictMin(a, b, (2*a+b)%3+1), c14Evict(a, b, (a+b)%3+1, 0), c14Evict(a, b, (a+2*b)%3+1, 1))
+				}
+			}
+		}
+	} else {
+		for _, ab := range [][2]int{{0, 2}, {6, 7}, {3, 8}, {4, 6}, {7, 5}, {1, 0}} {
+			for cap := 1; cap <= 3; cap++ {
+				out = append(out, c14EvictMin(ab[0], ab[1], cap), c14Evict(ab[0], ab[1], cap, 0), c14Evict(ab[0], ab[1], cap, 1))
+			}
 		}
 	}
 	for len(out) < n {
